@@ -2024,6 +2024,22 @@ theorem pyCall_toCall (s : Sig) (hwf : s.wf = true) (n : Named) (h : NamedWF s n
       intro p hp
       have := hallp p.name (List.mem_map.2 ⟨p, hp, rfl⟩)
       exact (khas_iff _ _).2 this
+    have hallb : s.pos.all (fun p => ((kget n.named p.name).orElse fun _ => p.dflt).isSome) = true := by
+      rw [List.all_eq_true]
+      intro p hp
+      have := hall p hp
+      cases hg : kget n.named p.name with
+      | none => rw [hg] at this; cases this
+      | some v => rfl
+    have hfm : (s.pos.filterMap fun p => (kget n.named p.name).orElse fun _ => p.dflt)
+        = s.pos.filterMap fun p => kget n.named p.name := by
+      apply filterMap_congr'
+      intro p hp
+      have := hall p hp
+      cases hg : kget n.named p.name with
+      | none => rw [hg] at this; cases this
+      | some v => rfl
+    simp only [hallb, if_true, hfm]
     obtain ⟨hlen, hkz⟩ := kget_zip_filterMap n.named s.pos hpn hall
     have hkw2 : ∀ p ∈ n.named.filter (fun p => !(s.posNames.contains p.1)) ++ n.extra, s.names.contains p.1 = true →
         p.1 ∉ s.posNames := by
